@@ -5,6 +5,7 @@
 import BurrowVerif.Proofs.StorageDelete
 import BurrowVerif.Proofs.Locks
 import BurrowVerif.Proofs.Cluster
+import BurrowVerif.Proofs.ReaperSweep
 import BurrowVerif.Generated.StorageLocks
 
 namespace Burrow.Props.C09
@@ -205,10 +206,61 @@ theorem reaper_spares_live_groups (name : String) (k : List String) (sg : Option
 /-- Each stored group is named at most once per sweep. -/
 theorem reaper_names_each_group_once (name : String) (kg : Option (List String)) (s : List String)
     (h : s.Nodup) : (Cluster.reap name kg (some s)).2.Nodup := by
-  unfold Cluster.reap
+  unfold Cluster.reap Cluster.reapIgnoring
   cases kg with
   | none => exact List.nodup_nil
   | some k => exact h.sublist List.filter_sublist
+
+/-- The reaper end to end — its requests executed by storage: after a sweep the cluster lists exactly
+    the groups it listed before that Kafka still knows (plus its own `burrow-<name>` group) … -/
+theorem reaper_sweep_leaves_the_live_groups (s : Store) (h : WF s) (name : String) (kafkaGroups : List String) (g : String) :
+    let named := (Cluster.reap name (some kafkaGroups) (some (groupsOf s name))).2
+    g ∈ groupsOf (Reaper.sweep s name named) name ↔
+      g ∈ groupsOf s name ∧ (g ∈ kafkaGroups ∨ g = "burrow-" ++ name) := by
+  intro named
+  rw [Proofs.ReaperSweep.groups_after_sweep s h name named g]
+  constructor
+  · rintro ⟨h1, h2⟩
+    refine ⟨h1, ?_⟩
+    by_cases hk : g ∈ kafkaGroups
+    · exact Or.inl hk
+    · by_cases hb : g = "burrow-" ++ name
+      · exact Or.inr hb
+      · exact absurd ((reaper_deletes_iff name _ _ g).mpr ⟨kafkaGroups, groupsOf s name, rfl, rfl, h1, hk, hb⟩) h2
+  · rintro ⟨h1, h2⟩
+    refine ⟨h1, fun hm => ?_⟩
+    obtain ⟨k, sg, hk, _, _, hnk, hnb⟩ := (reaper_deletes_iff name _ _ g).mp hm
+    cases hk
+    cases h2 with
+    | inl h => exact hnk h
+    | inr h => exact hnb h
+
+/-- … and every group it did not name, and every other cluster, is reported exactly as before. -/
+theorem reaper_sweep_frame (s : Store) (name : String) (kg sg : Option (List String)) (now : Int) (c g : String)
+    (hne : ¬ (c = name ∧ g ∈ (Cluster.reap name kg sg).2)) :
+    let s' := Reaper.sweep s name (Cluster.reap name kg sg).2
+    detail s' now c g = detail s now c g ∧ fetchTopicList s' c = fetchTopicList s c ∧
+    fetchClusterList s' = fetchClusterList s :=
+  Proofs.ReaperSweep.sweep_frame s name _ now c g hne
+
+/-- A sweep whose Kafka listing failed changes nothing at all. -/
+theorem reaper_run_with_failed_listing_is_identity (s : Store) (name : String) : Reaper.run s name none = s := rfl
+
+/-- `Reaper.run` (what the `S reap` op of the storage stream executes on the real cluster and storage
+    modules together) in one statement. -/
+theorem reaper_run_leaves_the_live_groups (s : Store) (h : WF s) (name : String) (kafkaGroups : List String) (g : String)
+    (hc : (fetchConsumerList s name).isSome) :
+    g ∈ groupsOf (Reaper.run s name (some kafkaGroups)) name ↔
+      g ∈ groupsOf s name ∧ (g ∈ kafkaGroups ∨ g = "burrow-" ++ name) := by
+  have hl : fetchConsumerList s name = some (groupsOf s name) := by
+    unfold groupsOf
+    cases hf : fetchConsumerList s name with
+    | none => simp [hf] at hc
+    | some l => rfl
+  unfold Reaper.run Reaper.runIgnoring
+  show g ∈ groupsOf (Reaper.sweep s name (Cluster.reap name (some kafkaGroups) (fetchConsumerList s name)).2) name ↔ _
+  rw [hl]
+  exact reaper_sweep_leaves_the_live_groups s h name kafkaGroups g
 
 example : Cluster.reap "c0" (some ["g1"]) (some ["g0", "g1", "burrow-c0", "g2"]) = (true, ["g0", "g2"]) := by decide
 example : Cluster.reap "c0" none (some ["g0"]) = (false, []) := by decide
